@@ -125,12 +125,12 @@ func selfTest() (problems []string, fired int) {
 		{"O1", "cmp"}, {"O2", "cmp"}, {"O3", "sort.Slice"},
 		{"P1", "DynamicRegex"}, {"P1", "ExplicitPanic"}, {"P1", "cmp/panic"},
 		{"P4", "UnguardedIndex/s:index const 0"}, {"P4", "UnguardedIndex/s:index len-1"},
-		{"P5", "Divide"}, {"P5", "Repeat"}, {"L1", "StaleLength"}, {"PF", "DropsPrefs"},
+		{"P5", "Divide"}, {"P5", "Repeat"}, {"L1", "StaleLength"}, {"P4v", "VarIndexUnbounded"}, {"P4v", "VarIndexOtherLen"}, {"PF", "DropsPrefs"},
 		{"J1", "EscapesHTML"}, {"J2", "LossyNumber"}, {"J4", "IntoMap"},
 		{"G5", "MapOrder"},
 		{"X1", "MutatesInput"}, {"G1", "WritesGlobal"},
 	}
-	mustNot := []selfExpect{{"PF", "ForwardsPrefs"}, {"L1", "FreshLength"}, {"X1", "MutatesCopy"}, {"P4", "GuardedIndex"}, {"X1", "CandidateNode.Copy"}}
+	mustNot := []selfExpect{{"P4v", "VarIndexRange"}, {"PF", "ForwardsPrefs"}, {"L1", "FreshLength"}, {"X1", "MutatesCopy"}, {"P4", "GuardedIndex"}, {"X1", "CandidateNode.Copy"}}
 	have := map[string][]string{}
 	for _, o := range r.obligs {
 		if o.Verdict == "finding" {
